@@ -145,16 +145,17 @@ pub open spec fn cap(max_attempts: usize) -> nat { if max_attempts >= 1 { max_at
 #[verifier::loop_isolation(false)]
 #[verifier::allow_complex_invariants]
 pub fn execute_with_hedging<Req: VClone, Res, E: VClone>(service: Inner<Req, Res, E>, req: Req, config: Arc<HedgeConfig>, clk: &mut Clock, Tracked(tr): Tracked<&mut Trace<Req, Res, E>>) -> (result: Result<Res, HedgeError<E>>)
-    requires old(tr).fresh() || *old(tr) == (Trace { created: true, ev: old(tr).ev, ..*old(tr) }) && hedge_start(*old(tr)), config.max_hedged_attempts >= 1,   // the builder clamps max_hedged_attempts to >= 1
+    requires old(tr).fresh() || *old(tr) == (Trace { created: true, ev: old(tr).ev, ..*old(tr) }) && hedge_start(*old(tr)), config.max_hedged_attempts >= 1,
+        service.ready@,   // the instance handed over is the one poll_ready drove to readiness (Hedge::call, mem::replace)   // the builder clamps max_hedged_attempts to >= 1
     ensures
         1 <= final(tr).calls <= cap(config.max_hedged_attempts),   // #at_least_one_and_at_most_max_hedged_attempts_inner_calls [C12]
-        vx_positive_delay_spec(delay_spec(config.delay, 1)) is Some ==> spaced_starts(final(tr).spawn_at, config.delay) && final(tr).spawn_at.len() == final(tr).calls,   // #with_a_delay_each_attempt_starts_no_earlier_than_its_delay_after_the_previous_start [C12]
+        vx_positive_delay_spec(delay_spec(config.delay, 1)) is Some ==> spaced_starts(final(tr).spawn_at, config.delay) && final(tr).spawn_at.len() == final(tr).spawned,   // #with_a_delay_each_attempt_starts_no_earlier_than_its_delay_after_the_previous_start [C12]
         forall|i: int| 0 <= i < final(tr).reqs.len() ==> final(tr).reqs[i] == req,   // #every_attempt_carries_the_request [C12,C20]
         result matches Ok(v) ==> (final(tr).last_recv matches Some(m) && m.1 == Ok::<Res, E>(v)),   // #resolves_with_a_successful_attempts_response [C12,C20]
         result is Ok <==> final(tr).recv_ok >= 1,   // #returns_at_the_first_successful_result [C12]
         final(tr).recv_ok <= 1,   // #stops_receiving_after_a_success [C12]
-        result matches Err(HedgeError::AllAttemptsFailed(_)) ==> final(tr).calls == cap(config.max_hedged_attempts) && final(tr).recv_err == final(tr).calls,   // #all_attempts_failed_only_when_every_attempt_was_started_and_has_failed [C12]
-        result matches Err(HedgeError::AllAttemptsFailed(_)) ==> final(tr).calls == cap(config.max_hedged_attempts) && final(tr).recv_err >= 1 && final(tr).recv_ok == 0,   // #all_attempts_failed_only_after_every_attempt_was_started_and_none_has_succeeded [C12]
+        result matches Err(HedgeError::AllAttemptsFailed(_)) ==> final(tr).spawned == cap(config.max_hedged_attempts) && final(tr).recv_err == final(tr).spawned,   // #all_attempts_failed_only_when_every_attempt_was_started_and_has_failed [C12]
+        result matches Err(HedgeError::AllAttemptsFailed(_)) ==> final(tr).spawned == cap(config.max_hedged_attempts) && final(tr).recv_err >= 1 && final(tr).recv_ok == 0,   // #all_attempts_failed_only_after_every_attempt_was_started_and_none_has_succeeded [C12]
         !(result matches Err(HedgeError::Inner(_))),   // #never_reports_a_single_attempts_error_as_the_outcome [C12]
 //@body execute_with_hedging
 
@@ -168,7 +169,7 @@ impl<Req: VClone, Res, E: VClone> Hedge<Req, Res, E> {
             1 <= final(tr).calls <= cap(old(self).config.max_hedged_attempts),   // #at_least_one_and_at_most_max_hedged_attempts_inner_calls [C12]
             forall|i: int| 0 <= i < final(tr).reqs.len() ==> final(tr).reqs[i] == req,   // #every_attempt_carries_the_request [C12,C20]
             result matches Ok(v) ==> (final(tr).last_recv matches Some(m) && m.1 == Ok::<Res, E>(v)),   // #resolves_with_a_successful_attempts_response [C12,C20]
-            result matches Err(HedgeError::AllAttemptsFailed(_)) ==> final(tr).calls == cap(old(self).config.max_hedged_attempts) && final(tr).recv_err == final(tr).calls,   // #all_attempts_failed_only_when_every_attempt_was_started_and_has_failed [C12]
+            result matches Err(HedgeError::AllAttemptsFailed(_)) ==> final(tr).spawned == cap(old(self).config.max_hedged_attempts) && final(tr).recv_err == final(tr).spawned,   // #all_attempts_failed_only_when_every_attempt_was_started_and_has_failed [C12]
             final(self).config == old(self).config,   // #frame
     //@body Hedge::call@Service
     pub fn poll_ready(&mut self, cx: &mut Context) -> (r: Poll<Result<(), HedgeError<E>>>)
